@@ -123,7 +123,7 @@ for _nn, _tier, _T in ((2, "quick", 200), (3, "thorough", 900)):
 
 
 def _two():
-    def body(m1, m2, a0, a1, b0, b1, r0, r1):
+    def body(m1, m2, a0, a1, b0, b1, r0, r1, p0, p1):
         from cdd.compound.openapi.utils.emit_openapi_utils import components_paths_from_name_model_route_id_crud as kernel
 
         n1, n2 = S((a0, a1)), S((b0, b1))
@@ -133,17 +133,18 @@ def _two():
         comps = {"requestBodies": LD(), "schemas": LD()}
         comps["schemas"]["ServerError"] = {"type": "object"}
         paths = LD()
-        kernel(comps, paths, n1, MODEL, rt1, "id", crud_of(m1))
-        kernel(comps, paths, n2, MODEL, rt2, "id", crud_of(m2))
+        pk1, pk2 = "k" + S((p0,)), S((p1,)) + "id"
+        kernel(comps, paths, n1, MODEL, rt1, pk1, crud_of(m1))
+        kernel(comps, paths, n2, MODEL, rt2, pk2, crud_of(m2))
         d = closed(comps, paths)
         if d:
             return d
         if n1 not in comps["schemas"] or n2 not in comps["schemas"]:
             return "a model schema is missing"
-        d = ops_match(paths, rt1, "id", m1)
+        d = ops_match(paths, rt1, pk1, m1)
         if d:
             return "model 1: " + d
-        d = ops_match(paths, rt2, "id", m2)
+        d = ops_match(paths, rt2, pk2, m2)
         if d:
             return "model 2: " + d
         return ""
@@ -151,9 +152,9 @@ def _two():
     return body
 
 
-ob("C16", "K1.two", {"m1": R(1, 7), "m2": R(1, 7), "a0": PR, "a1": PR, "b0": PR, "b1": PR, "r0": PR, "r1": PR},
-   pre="r0 != 123 and r0 != 125 and r1 != 123 and r1 != 125", tier="quick", T=400, funcs=[KERNEL], assumes=[LD_DOC],
-   bound="two models in one document: names = ANY 2 printable characters each (distinct), routes '/'+1 printable each (distinct, no braces), id 'id', every pair of non-empty CRUD subsets")(_two())
+ob("C16", "K1.two", {"m1": R(1, 7), "m2": R(1, 7), "a0": PR, "a1": PR, "b0": PR, "b1": PR, "r0": PR, "r1": PR, "p0": PR, "p1": PR},
+   pre="r0 != 123 and r0 != 125 and r1 != 123 and r1 != 125 and p0 != 123 and p0 != 125 and p1 != 123 and p1 != 125", tier="quick", T=600, funcs=[KERNEL], assumes=[LD_DOC],
+   bound="two models in one document: names = ANY 2 printable characters each (distinct), routes '/'+1 printable each (distinct, no braces), primary keys 'k'+ANY printable and ANY printable+'id' (so they may be equal or differ), every pair of non-empty CRUD subsets")(_two())
 
 
 # the glue in openapi(): ServerError seeding, top level, JSON serialisability; names concrete, CRUD/arity symbolic -------
